@@ -99,14 +99,20 @@ func leafString() *codec[pk.String] {
 // alphabet indexes of "String" (used under every combinator and in the scan part) stay as they were.
 func leafStringMaxChars() *codec[pk.String] {
 	vals := []pk.String{
-		pk.String(strings.Repeat("x", 32766)),     // 32766 units, 32766 bytes
-		pk.String(strings.Repeat("é", 16384)),     // 16384 units, 32768 bytes: first byte length above 32767
-		pk.String(strings.Repeat("é", 32767)),     // 32767 units, 65534 bytes
-		pk.String(strings.Repeat("日", 32767)),     // 32767 units, 98301 bytes: the longest encoding in the domain
+		pk.String(strings.Repeat("x", 32766)),       // 32766 units, 32766 bytes
+		pk.String(strings.Repeat("é", 16384)),       // 16384 units, 32768 bytes: first byte length above 32767
+		pk.String(strings.Repeat("é", 32767)),       // 32767 units, 65534 bytes
+		pk.String(strings.Repeat("日", 32767)),       // 32767 units, 98301 bytes: the longest encoding in the domain
 		pk.String(strings.Repeat("😀", 16383) + "a"), // 32767 units (surrogate pairs), 65533 bytes
 	}
 	c := leaf("String(32767 characters)", vals, func(b []byte, v pk.String) []byte { return refwire.AppendString(b, string(v)) })
 	c.kind = "String"
+	c.diff = func(want, got pk.String) string {
+		if want != got {
+			return "String.value"
+		}
+		return ""
+	}
 	c.show = func(v pk.String) string { return showStr(string(v)) }
 	return c
 }
